@@ -3,7 +3,7 @@
 From Coq Require Import Lia.
 From MHL Require Import Model.Commands Gen.Generated Proofs.BaseFacts Proofs.SealFacts Proofs.RouteFacts Proofs.TreeFacts
   Proofs.IgnoreFacts Proofs.CommitFacts Proofs.CreateFacts Proofs.PartitionFacts Proofs.FreshFacts Proofs.LoadFacts Proofs.HistFacts
-  Proofs.VerifyFacts Proofs.FlatFacts Proofs.ReloadFacts Proofs.NestedFacts.
+  Proofs.VerifyFacts Proofs.FlatFacts Proofs.ReloadFacts Proofs.NestedRecFacts Proofs.NestedFacts Proofs.NestedDhFacts.
 
 Section SfNested.
   Variable Hb : fmt -> bytes -> bytes.
@@ -112,5 +112,94 @@ Section SfNested.
       pose proof (Hnf : snd (fst (fold_left f l i)) = 0) as Hnf2; clear Hnf; destruct (fold_left f l i) as [[sess fails] dn] end.
     cbn [fst snd] in Hnf2. subst fails. cbn [snd o_outcome] in *.
     destruct (cs_abort C (commit C cdig ser hs InPlace t sess spec)); [exfalso; apply Hna; reflexivity|reflexivity].
+  Qed.
+
+  (* coverage: every named file ends up as a record of the history it is routed to *)
+  Lemma sf_fold_cover hs (Hroot : lh_root (root_hist hs) = [])
+        (Hpar : forall h par, In h hs \/ h = root_hist hs -> lh_parent h = Some par -> is_prefix par (lh_root h) = true)
+        (R : path -> record -> Prop) fmts : forall files s fails done,
+    sinv R s done ->
+    (forall p c, In (p, c) files -> let h := route_to hs p in let q := strip_prefix (lh_root h) p in
+       q <> [] -> forall sz, R (lh_root h) (mkRecord q false sz (fst (seal (lh_gens h) q (fun f => digest_text Hb f c) fmts)) None)) ->
+    (forall p c c', In (p, c) files -> In (p, c') files -> c = c') ->
+    (forall p c, In (p, c) files -> In p done -> covered Hb hs fmts s p c) ->
+    let st := fold_left (sf_step Hb hs fmts) files (s, fails, done) in
+    (forall k r, In r (nl_records (sess_list s k)) -> In r (nl_records (sess_list (fst (fst st)) k))) /\
+    (forall p c, In (p, c) files -> covered Hb hs fmts (fst (fst st)) p c) /\
+    (forall q, In q (snd st) <-> In q done \/ In q (map fst files)).
+  Proof.
+    induction files as [|[p c] files IH]; intros s fails done Hs Hf Hfun Hcov; cbn [fold_left].
+    { cbn zeta. split; [auto|]. split; [intros p c []|intros q; cbn; tauto]. }
+    cbn zeta.
+    assert (E : sf_step Hb hs fmts (s, fails, done) (p, c) =
+                if mem_path p done then (s, fails, done)
+                else let '(s', _, ok) := seal_file Hb hs fmts s p c in (s', if ok then fails else S fails, p :: done)) by reflexivity.
+    rewrite E. clear E. destruct (mem_path p done) eqn:Em.
+    - apply mem_path_In in Em.
+      destruct (IH s fails done Hs (fun p0 c0 H => Hf p0 c0 (or_intror H)) (fun p0 c0 c1 H1 H2 => Hfun p0 c0 c1 (or_intror H1) (or_intror H2))
+                   (fun p0 c0 H Hd => Hcov p0 c0 (or_intror H) Hd)) as [A [B D]]. cbn zeta in A, B, D.
+      split; [exact A|]. split.
+      + intros p0 c0 [E|Hin]; [|apply B; exact Hin]. injection E as <- <-.
+        pose proof (Hcov p c (or_introl eq_refl) Em) as Hc0. intros Hq Hes. destruct (Hc0 Hq Hes) as [sz Hsz]. exists sz. apply A. exact Hsz.
+      + intros q. rewrite D. cbn [map fst In]. split; [tauto|]. intros [H|[<-|H]]; auto.
+    - assert (Hnew : ~ In p done) by (intros H; apply mem_path_In in H; congruence).
+      destruct (process_event_sinv Hb matches C hs Hroot Hpar R fmts false [] (Dir None []) s 0 done (EvFile p c) Hs Hnew) as [H1 [Hm1 Hc1]].
+      { apply Hf. left. reflexivity. }
+      cbn [process_event ev_path fst] in H1, Hm1, Hc1.
+      destruct (seal_file Hb hs fmts s p c) as [[s' n] ok] eqn:Esf. cbn [fst] in H1, Hm1, Hc1.
+      destruct (IH s' (if ok then fails else S fails) (p :: done) H1 (fun p0 c0 H => Hf p0 c0 (or_intror H))
+                   (fun p0 c0 c1 H1' H2 => Hfun p0 c0 c1 (or_intror H1') (or_intror H2))) as [A [B D]].
+      { intros p0 c0 Hin [<-|Hd].
+        - rewrite (Hfun p c0 c (or_intror Hin) (or_introl eq_refl)). exact Hc1.
+        - pose proof (Hcov p0 c0 (or_intror Hin) Hd) as Hc0. intros Hq Hes. destruct (Hc0 Hq Hes) as [sz Hsz]. exists sz. apply Hm1. exact Hsz. }
+      cbn zeta in A, B, D. split; [intros k r Hr; apply A; apply Hm1; exact Hr|]. split.
+      + intros p0 c0 [E|Hin]; [|apply B; exact Hin]. injection E as <- <-. intros Hq Hes. destruct (Hc1 Hq Hes) as [sz Hsz]. exists sz. apply A. exact Hsz.
+      + intros q. rewrite D. cbn [map fst In]. tauto.
+  Qed.
+
+  (* C02, -sf over any nesting: every generation the run writes belongs to a loaded history k and holds file records at
+     exactly the k-relative paths of the named files (the visible files beneath named folders) whose deepest enclosing
+     history is k -- and nothing else *)
+  Theorem create_sf_nested_records h0 kids hs req sf ip ifl t' o :
+    wf_tree C (Dir h0 kids) -> load C cdig (Dir h0 kids) = inl hs -> req <> [] ->
+    create_sf Hb matches C cdig ser (Dir h0 kids) req sf ip ifl = (t', o) ->
+    let spec := set_patterns (latest_patterns (lh_gens (root_hist hs))) ip (pattern_file_lines ifl) in
+    let files := flat_map (sf_files matches C spec (Dir h0 kids)) sf in
+    forall k doc, In (k, doc) (o_written o) ->
+      (exists h, In h hs /\ lh_root h = k) /\
+      forall q, In q (map r_path (g_records doc)) <->
+                exists p c, In (p, c) files /\ lh_root (route_to hs p) = k /\ strip_prefix k p = q.
+  Proof.
+    intros Hwf Hl Hreq Hc spec files k doc Hin. destruct (load_list_facts C cdig h0 kids hs Hl) as [Hroot [_ [Hrin Hpar]]].
+    unfold create_sf in Hc. rewrite Hl in Hc. fold spec in Hc. fold files in Hc.
+    set (R := fun (k0 : path) (r : record) => lh_root (route_to hs (k0 ++ r_path r)) = k0 /\ strip_prefix k0 (k0 ++ r_path r) = r_path r).
+    assert (Hfget : forall p c, In (p, c) files -> get C (Dir h0 kids) p = Some (File c)).
+    { intros p c H. unfold files in H. apply in_flat_map in H. destruct H as [sp [_ H]]. apply (sf_files_get spec (Dir h0 kids) sp p c Hwf H). }
+    assert (HfR : forall p c, In (p, c) files -> let h := route_to hs p in let q := strip_prefix (lh_root h) p in
+       q <> [] -> forall sz, R (lh_root h) (mkRecord q false sz (fst (seal (lh_gens h) q (fun f => digest_text Hb f c) (sort_fmts req))) None)).
+    { intros p c _ h q _ sz. unfold R. cbn [r_path]. destruct (route_good hs Hroot p) as [Hg _]. fold h in Hg.
+      assert (Hj : lh_root h ++ q = p) by (apply strip_prefix_rejoin; exact Hg). rewrite Hj. split; [reflexivity|reflexivity]. }
+    assert (Hfun : forall p c c', In (p, c) files -> In (p, c') files -> c = c').
+    { intros p c c' H1 H2. pose proof (Hfget p c H1) as G1. rewrite (Hfget p c' H2) in G1. congruence. }
+    pose proof (sf_fold_sinv hs Hroot Hpar R (sort_fmts req) files [] 0 [] (fun k0 r0 (H : In r0 (nl_records (sess_list [] k0))) => match H with end) HfR) as Hinv.
+    pose proof (sf_fold_cover hs Hroot Hpar R (sort_fmts req) files [] 0 [] (fun k0 r0 (H : In r0 (nl_records (sess_list [] k0))) => match H with end) HfR Hfun
+                  (fun p c _ (H : In p []) => match H with end)) as Hcov.
+    cbn zeta in Hinv, Hcov.
+    match type of Hc with context [fold_left ?f ?l ?i] =>
+      pose proof (Hinv : sinv R (fst (fst (fold_left f l i))) (snd (fold_left f l i))) as Hi2;
+      pose proof (Hcov : _ /\ (forall p c, In (p, c) files -> covered Hb hs (sort_fmts req) (fst (fst (fold_left f l i))) p c) /\
+                        (forall q, In q (snd (fold_left f l i)) <-> In q [] \/ In q (map fst files))) as Hc2;
+      clear Hinv Hcov; destruct (fold_left f l i) as [[sess fails] dn] end.
+    cbn [fst snd] in Hi2, Hc2. destruct Hc2 as [_ [Hcv Hdn]]. injection Hc as _ <-. cbn [o_written] in Hin.
+    unfold commit in Hin. destruct (commit_written_paths C cdig ser InPlace sess spec _ _ k doc Hin) as [[]|[Hp Hh]].
+    split; [exact Hh|]. intros q. rewrite Hp. unfold rp. split.
+    - intros Hq. apply in_map_iff in Hq. destruct Hq as [r [<- Hr]]. destruct (Hi2 k r Hr) as [[Rk Rs] HD].
+      apply Hdn in HD. destruct HD as [[]|HD]. apply in_map_iff in HD. destruct HD as [[p c] [Ep Hpc]]. cbn [fst] in Ep. subst p.
+      exists (k ++ r_path r), c. split; [exact Hpc|]. split; [exact Rk|exact Rs].
+    - intros [p [c [Hpc [Hk Hq]]]]. subst k q.
+      assert (Hgt := Hfget p c Hpc). pose proof (routed_rel_nonempty C cdig h0 kids hs p c Hwf Hl Hgt) as Hne.
+      assert (Hes : fst (seal (lh_gens (route_to hs p)) (strip_prefix (lh_root (route_to hs p)) p) (fun f => digest_text Hb f c) (sort_fmts req)) <> [])
+        by (apply seal_nonempty; apply sort_fmts_nonempty; exact Hreq).
+      destruct (Hcv p c Hpc Hne Hes) as [sz Hsz]. apply in_map_iff. eexists. split; [|exact Hsz]. reflexivity.
   Qed.
 End SfNested.
